@@ -76,6 +76,11 @@ def run(ck):
             # one backend did not produce a run: a front-end rejection is outside C01; anything else is a C04 matter, except
             # when only ONE backend fails on an accepted program (then the two backends observably disagree)
             one_failed = (vm['cls'] == 'exit') != (nat['cls'] == 'exit')
+            if vm['cls'] == 'exit' and vm['rc'] == 1 and 'out of bounds' in vm['err'] and nat['cls'] == 'signal6':
+                # both backends stopped at an out-of-range array access (VM: runtime error, exit 1; native: failed assertion, abort):
+                # a partial operation, outside C01 ("performs no undefined partial operation"); C02/C08 judge it
+                ck.extra['classes']['both-trap-out-of-bounds'] += 1
+                continue
             if one_failed and 'rejected' not in (vm['cls'], nat['cls']):
                 ck.fail(key, 'one backend runs the program, the other fails: vm=%s native=%s' % (vm['cls'], nat['cls']),
                         dict(source=src, vm=dict(cls=vm['cls'], rc=vm['rc'], err=vm['err'][-500:]), native=dict(cls=nat['cls'], rc=nat['rc'], err=nat['err'][-800:])))
